@@ -96,7 +96,9 @@ theorem allC : ∀ fuel, AllC fuel := by
       unfold startOpX at h
       try simp only [] at h
       split at h
-      · exact ih.stem _ _ _ _ h hC
+      · split at h
+        · exact ih.fin _ _ _ _ h hC
+        · exact ih.stem _ _ _ _ h hC
       · split at h
         · exact ih.fin _ _ _ _ h hC
         · split at h
